@@ -75,6 +75,27 @@ func c10HashVariants(v interface{}) []string {
 	return append(respelled, enc(append(append([]byte{}, b...), 1, 2, 3, 4, 5, 6)), enc(append(append([]byte{}, b...), 0)), enc(shorter), enc(longer), enc(b[:len(b)-1]), s + "=", enc(append(append([]byte{}, b...), b...)))
 }
 
+// c10Respell returns other base64url spellings of the same bytes (non-zero unused bits in the last character, an embedded line
+// break) for any string member that is base64url text - a key coordinate, a nonce: lenient decoders read them as the same bytes.
+func c10Respell(v interface{}) []string {
+	s, ok := v.(string)
+	if !ok || len(s) < 4 {
+		return nil
+	}
+	b, err := base64.RawURLEncoding.DecodeString(s)
+	if err != nil || base64.RawURLEncoding.EncodeToString(b) != s {
+		return nil
+	}
+	out := []string{s[:2] + "\n" + s[2:]}
+	if len(b)%3 != 0 {
+		const alphabet = "ABCDEFGHIJKLMNOPQRSTUVWXYZabcdefghijklmnopqrstuvwxyz0123456789-_"
+		if i := strings.IndexByte(alphabet, s[len(s)-1]); i >= 0 && i|1 != i {
+			out = append(out, s[:len(s)-1]+string(alphabet[i|1]))
+		}
+	}
+	return out
+}
+
 func has(list []string, s string) bool {
 	for _, x := range list {
 		if x == s {
@@ -756,6 +777,10 @@ func c10(r *hx.Run) {
 				for hi, hv := range c10HashVariants(getPath(ptree, path)) {
 					mutated = append(mutated, rebuild(setPath(ptree, path, hv, false), nil))
 					labels = append(labels, fmt.Sprintf("signed:%s:hash%d", strings.Join(path, "/"), hi))
+				}
+				for ri, rv := range c10Respell(getPath(ptree, path)) {
+					mutated = append(mutated, rebuild(setPath(ptree, path, rv, false), nil))
+					labels = append(labels, fmt.Sprintf("signed:%s:respelled%d", strings.Join(path, "/"), ri))
 				}
 			}
 			// foreign but well-formed values
